@@ -45,6 +45,49 @@ def run(ctx):
     state_from_segments(ctx)
     routing(ctx)
     concatenation(ctx)
+    ctx.rule("R17.5", "the d attribute kept in values is parsed once: the copy that `+` works on does not parse it again")
+    parse_once(ctx)
+
+
+def parse_once(ctx):
+    """path + b works on copy(path) = Path(path), which takes over the values dictionary - including the `d` text when the path
+    was built from Path(d=...) - together with the segments.  The constructor's parse of values[d] must therefore be guarded by
+    a marker kept in values, and every path that parses must set the marker; otherwise the copy holds `a a` before b is appended."""
+    fn = ctx.fn("Path.__init__", "R17.5")
+    parses = []
+    for st in ast.walk(fn):
+        if isinstance(st, ast.Call) and attr_chain(st.func) == ["self", "parse"] and len(st.args) == 1 and isinstance(st.args[0], ast.Subscript) \
+                and attr_chain(st.args[0].value) == ["self", "values"]:
+            parses.append(st)
+    ctx.need(parses, "R17.5", "Path.__init__: parse of the d entry of values not found")
+    for call in parses:
+        # the enclosing test that reads a marker from self.values
+        node = call
+        marker = guard = None
+        while node is not fn and node is not None:
+            p = getattr(node, "_parent", None)
+            if isinstance(p, ast.If) and any(node is b for b in p.body):
+                for c in ast.walk(p.test):
+                    if isinstance(c, ast.Call) and isinstance(c.func, ast.Attribute) and c.func.attr == "get" and attr_chain(c.func.value) == ["self", "values"] and c.args \
+                            and isinstance(c.args[0], ast.Constant) and isinstance(c.args[0].value, str):
+                        negated = isinstance(getattr(c, "_parent", None), ast.UnaryOp)
+                        if negated:
+                            marker, guard = c.args[0].value, p
+                    if isinstance(c, ast.Compare) and len(c.ops) == 1 and isinstance(c.ops[0], ast.NotIn) and isinstance(c.left, ast.Constant) and isinstance(c.left.value, str) \
+                            and attr_chain(c.comparators[0]) == ["self", "values"] and ast.unparse(c.left) != ast.unparse(call.args[0].slice):
+                        marker, guard = c.left.value, p
+            if marker:
+                break
+            node = p
+        ctx.ob("R17.5", "Path.__init__[parse of values[d] guarded by a marker]", marker is not None, "marker: %r" % marker, call.lineno,
+               "copy(path) hands the constructor the same values dictionary again: without a marker the d text is parsed on top of the copied segments")
+        if marker is None:
+            continue
+        sets = [st for b in guard.body for st in ast.walk(b) if isinstance(st, ast.Assign) and len(st.targets) == 1 and isinstance(st.targets[0], ast.Subscript)
+                and attr_chain(st.targets[0].value) == ["self", "values"] and isinstance(st.targets[0].slice, ast.Constant) and st.targets[0].slice.value == marker
+                and isinstance(st.value, ast.Constant) and bool(st.value.value)]
+        ctx.ob("R17.5", "Path.__init__[the marker is set when the d text has been parsed]", bool(sets), "marker %r set in the guarded block: %s" % (marker, bool(sets)), guard.lineno,
+               "Path(d=a) + b: the copy made by + parses a again and the result is a a b")
 
 
 def lexer_state(ctx):
